@@ -65,15 +65,16 @@ THEOREMS = [
     dict(name="Snow.C20.visf_run1D_eq_shelf", clause="corollary: window met at NO real time (for a VISF input this means an empty window)", strength="lemma"),
     dict(name="Snow.C20.visf_run1D_eq_shelf_empty_window", clause="REAL 1D model: t_vac_duration <= 0 => run1D(VISF) = run1D(shelf)", strength="full"),
     dict(name="Snow.C20.visf_cool1D_eq_shelf_before_window", clause="REAL 1D model: while dt*i <= t_vac_start*3600 the cooling loop (stop index, field, hazard, saved rows) is that of the shelf run - identical up to step n", strength="lemma"),
-    dict(name="Snow.C20.visf_run1D_eq_shelf_before_window_both_stages", clause="REAL 1D model, window opening after nucleation (e.g. during solidification): shelf run nucleates at step iEnd, first m solidification step times <= window start  =>  the VISF run has the same cooling stage (nucleation step, field, hazard, every saved row), the same solidification-loop state after m iterations (field, ice, saved rows, bookkeeping), and those saved rows are the first rows of the solidification history of the whole VISF run", strength="full"),
-    dict(name="Snow.C20.solidAfter_is_run_loop", clause="link: the m-step loop state of the previous theorem at full length is the `sol` of run1DOn whose saved rows (all but the last) are the solidification part of the published history", strength="full"),
+    dict(name="Snow.C20.visf_run1D_eq_shelf_before_window_both_stages", clause="REAL 1D model, window opening after nucleation (e.g. during solidification): shelf run nucleates at step iEnd, first m solidification step times <= window start  =>  the VISF run has the same cooling stage (nucleation step, field, hazard, every saved row), the same solidification-loop state after m iterations (field, ice, saved rows, bookkeeping), and those saved rows are the first rows saved by the solidification LOOP of the whole VISF run (loop states; published rows: visf_run1D_hist_eq_shelf_before_window)", strength="full"),
+    dict(name="Snow.C20.run1DOn_published_history", clause="how run1DOn builds Result1D.hist when the cooling loop nucleates at iEnd in state s: none if the run raises (row outside its buffer / solidification not completed), else cooling rows ++ post-nucleation row ++ the rows saved by the full-length solidification loop (solidAfter) except the last", strength="full"),
+    dict(name="Snow.C20.visf_run1D_hist_eq_shelf_before_window", clause="REAL 1D model, PUBLISHED rows, window opening after nucleation: same hypotheses as the previous theorem; whenever the VISF run and the shelf run both publish a history (hist = some; nothing is claimed for a run that raises) the two histories start with the same rows: every cooling row, the post-nucleation row, the rows saved in the first m solidification iterations except the last of them", strength="full"),
     dict(name="Snow.C20.fluxN_zero_at_equilibrium", clause="flux laws for ANY value of pi (Gen.FU.N_w, the run models' function): zero at equilibrium", strength="full"),
     dict(name="Snow.C20.fluxN_pos_iff", clause="... positive iff p_vap > p_vac (pi > 0)", strength="full"),
     dict(name="Snow.C20.fluxN_mono_pvap", clause="... strictly increasing in p_vap", strength="full"),
     dict(name="Snow.C20.fluxN_scales_kappa", clause="... closed form in kappa", strength="full"),
     dict(name="Snow.C20.fluxN_strictMono_kappa", clause="... strictly increasing in kappa on (0,1]", strength="full"),
     dict(name="Snow.C20.run_model_flux", clause="Evap.vapourFlux (0D/1D), Evap2D.vapourFlux pi (2D) and Gen.vapour_flux are Gen.FU.N_w at pi = piDouble / the input pi / Real.pi", strength="full"),
-    dict(name="Snow.C20.evap_cools_iff_1D", clause="REAL 1D model: inside the window Snow.qEvap <= 0 iff p_vap >= p_vac", strength="full"),
+    dict(name="Snow.C20.evap_cools_iff_1D", clause="REAL 1D model: inside the window Snow.qEvap <= 0 iff p_vap >= p_vac (hypotheses: VISF input, 0 < kappa <= 1, 0 < m_water, 0 < k_B, 0 < dHe, 0 < T_top)", strength="full"),
     dict(name="Snow.C20.evap_cools_iff", clause="inside the window q_e <= 0 iff p_vap >= p_vac (T_l = T_v > 0)", strength="full"),
     dict(name="monitored:triple_point_coincide", clause="the two curves coincide at the triple point (273.16 K): NO theorem, evaluated at Float on every run (relative gap <= 1e-6)", strength="monitored"),
     dict(name="Snow.C20.p_ice_lt_p_liq_between", clause="monotone interpolation: p_ice(b) < p_liq(a), 123 <= a <= b <= 332  =>  p_ice < p_liq on the whole of [a,b] (from the two monotonicity theorems); turns the grid evaluation below into a statement about every real T of a grid cell", strength="conditional (the premise is evaluated at Float on the grid, not proved)"),
@@ -97,8 +98,10 @@ ASSUMPTIONS = [
     "beyond the process or between two samples) - visf_run1D_eq_shelf_sampled, _window_beyond, _empty_window; the "
     "prefix before a window that does open is proved for both stages at the level of the loop states and their saved "
     "rows (visf_run1D_eq_shelf_before_window_both_stages: cooling stage complete, first m solidification iterations, "
-    "saved rows = first rows of the whole run's solidification history; the published history is bufC ++ those rows "
-    "minus the last, by the definition of run1DOn - not restated as a theorem about Result1D.hist); "
+    "saved rows = first rows saved by the whole run's loop) and on the published rows (run1DOn_published_history: how "
+    "Result1D.hist is built; visf_run1D_hist_eq_shelf_before_window: if both runs publish a history, both start "
+    "with the cooling rows, the post-nucleation row and the rows of the first m solidification iterations but the "
+    "last; nothing is claimed for a run that raises); "
     "the 2D runs have no run-level theorem (monitored: a small real 2D pair is run end to end and compared) - for 2D the q_e link and the ties of the whole "
     "`if window: q_e = ... else: q_e = 0` statements are proved",
     "the abstract-loop theorems (runStage, body an arbitrary function of q_e) are kept as lemmas",
@@ -167,7 +170,7 @@ THEOREMS = THEOREMS + [
     dict(name="Snow.GenTie.S1D.cool_q_e_if", clause="1D cooling loop: generated `if dt*i in window: q_e = -vapour_flux(kappa, m_water, k_B, p_vac, p_liq(T_top), T_top, T_top)*dHe else: q_e = 0` = the model's qEvap (VISF)", strength="tie"),
     dict(name="Snow.GenTie.S1D.solid_q_e_if", clause="1D solidification loop: generated `if t_nuc+dt*i in window: q_e = -vapour_flux(…, p_ice(T_top), …)*dHe else: q_e = 0` = the model's qEvap (VISF)", strength="tie"),
     dict(name="Snow.GenTie.S1D.q_e_call_sites", clause="1D cooling stage: the model's step function passes exactly this qEvap (liquid curve, time dt*i, top node) to the top boundary node", strength="tie"),
-    dict(name="Snow.GenTie.S2D.cool_q_e_if", clause="2D cooling loop: generated whole `if window … else: q_e = 0` statement (per radial node) = S2D.qEvap (VISF, code-as-is flags)", strength="tie"),
+    dict(name="Snow.GenTie.S2D.cool_q_e_if", clause="2D cooling loop: generated whole `if window … else: q_e = 0` statement (per radial node) = S2D.qEvap (VISF, flag coolingSolidPvap = false: the liquid curve in the cooling stage, i.e. the repaired code = current /repo; with the pre-repair flag the model uses the ice curve and this tie does not apply)", strength="tie"),
     dict(name="Snow.GenTie.S2D.solid_q_e_if", clause="2D solidification loop: generated whole `if window … else: q_e = 0` statement = S2D.qEvap (VISF)", strength="tie"),
 ]
 extra_lean_targets = list(globals().get("extra_lean_targets", [])) + [
